@@ -45,7 +45,7 @@ CHECKS = {
  'C12': dict(
    engine='namematch',
    category='other',
-   text='Bounded exhaustive, labelled bounded and never counted as proved: uscxml::nameMatch (String.cpp) and its copy in the generated-C scaffolding (test-gen-c.cpp) are extracted mechanically to C on every run (std::string operations -> fixed-capacity shim asserting std::string preconditions) and CBMC decides, for ALL descriptor lists and event names up to length L (6 quick / 8 thorough) over the full 8-bit alphabet with unwinding assertions: result == spec function transcribed from Recommendation 3.12.1 (O_sound, O_complete) on well-formed inputs, no std::string precondition violated and termination on arbitrary strings, and both copies agree (O_same). Counterexamples are replayed natively on the real String.cpp and the verbatim scaffold text. The Trie-based static resolution in the Promela/VHDL back ends is not covered.',
+   text='Bounded exhaustive, labelled bounded and never counted as proved: uscxml::nameMatch (String.cpp) and its copy in the generated-C scaffolding (test-gen-c.cpp) are extracted mechanically to C on every run (std::string operations -> fixed-capacity shim asserting std::string preconditions) and CBMC decides, for ALL descriptor lists and event names up to length L (6 quick / 8 thorough) over the full 8-bit alphabet with unwinding assertions: result == spec function transcribed from Recommendation 3.12.1 (O_sound, O_complete) on well-formed inputs, no std::string precondition violated and termination on arbitrary strings, both copies agree (O_same), and InterpreterImpl::isMatched forwards (descriptor list, event name) to the matcher unchanged (O_forward). Counterexamples are replayed natively on the real String.cpp and the verbatim scaffold text. The Trie-based static resolution in the Promela/VHDL back ends is not covered.',
    note='Trusted: extraction rules + vstr shim ("C" locale), spec nm_spec.h, CBMC. Bound: string length <= L; complete inside the bound.',
    technique='bounded CBMC (unwinding assertions) on mechanically extracted C against a Recommendation-derived spec function; native replay on the real code',
    design='3/C12'),
